@@ -25,7 +25,7 @@ CONT = ["x", "{{t|a}}", "[[l|m]]", "'''b'''", "''i''", '<span class="c">s</span>
 ATTRS = [{}, {"class": "c"}, {"style": "s-1", "id": "i2"}, {"class": "a b"}]
 HTML_SKIP = {"pre", "nowiki", "section", "noinclude", "includeonly", "onlyinclude", "math", "chem", "ce", "hiero", "score",
              "syntaxhighlight", "source", "templatestyles", "timeline", "gallery", "imagemap", "inputbox", "poem"}
-ARG_ATOMS = ["text", " pad ", "{{c|1}}", "[[n]]", "k=v", "", "a b", "x:y", "2"]
+ARG_ATOMS = ["text", " pad ", "{{c|1}}", "[[n]]", "k=v", "", "a b", "x:y", "2", "\n x=1", "\n* b", "\n", ":c", "[[n]]\n q"]
 
 
 def attrstr(a, quote='"'):
@@ -197,6 +197,8 @@ def arg_expect(exp, atom, kind):
     call / link becomes its node."""
     if atom == "":
         return []
+    if atom == "[[n]]\n q":
+        return exp.of("[[n]]") + ["\n q"]
     if atom.startswith(("{{", "[[")):
         return exp.of(atom)
     return [atom]
@@ -219,11 +221,11 @@ def check_call(ctx, exp, form, args):
     elif form == "param":
         src, kind, head = "{{{name" + "".join("|" + a for a in args) + "}}}", K.TEMPLATE_ARG, "name"
     elif form == "link":
-        if any("[[" in a for a in args):
+        if any("[[" in a or "\n" in a for a in args[:1]) or any("[[" in a for a in args):
             return None, []
         src, kind, head = "[[name" + "".join("|" + a for a in args) + "]]", K.LINK, "name"
     else:
-        if len(args) > 1 or any(("[" in a or "{" in a) for a in args):
+        if len(args) > 1 or any(("[" in a or "{" in a or "\n" in a) for a in args):
             return None, []
         src, kind, head = "[http://x.y/p" + (" " + args[0] if args and args[0].strip() else "") + "]", K.URL, "http://x.y/p"
     ctx.start_page("Tt")
